@@ -233,8 +233,18 @@ class Roles:
         """helper methods that construct Ok and write `executed` from a non-constant"""
         def go():
             out = []
+            hm = {h.name: h for h in self.helper_methods()}
+            def fans_out(b):
+                # the message goes to every registered requester (a loop over `requesters` here or in a helper it calls), not to one given actor
+                names = ({b.name, self.fn_of(b).name} | self.f.cg.reach([self.fn_of(b).name], cross_spawn=False)) & set(hm)
+                for n in names:
+                    co = self.f.coroutine_of(n) or hm[n]
+                    for x in (hm[n], co):
+                        if any(atom_has_field(l[5], "requesters", "TargetActorHelper") for l in for_loops(x)):
+                            return True
+                return False
             for (b, sites) in self.bodies_constructing("ActorInputMessage", "Ok"):
-                if b in self.helper_methods():
+                if b in self.helper_methods() and fans_out(b):
                     out.append(b)
             return out
         return self._memo("succ_notifiers", go)
